@@ -87,6 +87,7 @@ pub fn build_subject() -> Result<PathBuf, String> {
         .env("CARGO_NET_OFFLINE", "true")
         .env("RUSTFLAGS", if cov.is_some() { "--cfg seed_verif -C instrument-coverage" } else { "--cfg seed_verif" })
         .env("CARGO_TARGET_DIR", &target)
+        .env("LLVM_PROFILE_FILE", "/dev/null")
         .output()
         .map_err(|e| format!("cannot run cargo: {}", e))?;
     if !out.status.success() {
